@@ -164,6 +164,15 @@ class Engine(ValueOps, ExprOps, CallOps, StmtOps):
             tmp.pc = live.pc
             tmp.obligations = live.obligations
             tmp.decisions, tmp.dpos, tmp.dlog, tmp.trace = live.decisions, live.dpos, live.dlog, live.trace
+            tmp.env = dict(tmp.env)
+            for k, v in live.env.items():
+                if getattr(v, 'term', None) in live.decls.bound:        # quantified variables stay visible inside old()
+                    tmp.env[k] = v
+                elif k in tmp.env and tmp.env[k].kind == 'val' and v.kind in ('list', 'ref', 'str', 'int', 'bool', 'dict') \
+                        and not getattr(v, 'owned', False) and v.term is not None:
+                    sel = {'list': 'vl', 'ref': 'vr', 'str': 'vs', 'int': 'vi', 'bool': 'vb', 'dict': 'vd'}[v.kind]
+                    if v.term == "(%s %s)" % (sel, tmp.env[k].term):
+                        tmp.env[k] = v      # the same (never reassigned) value, whose kind a test has settled since
             self.st = tmp
             saved_old = self.old_state
             try:
@@ -196,7 +205,7 @@ class Engine(ValueOps, ExprOps, CallOps, StmtOps):
         cside = [t for t, k in st.pc[mark:] if k not in ('wf', 'def', 'lib')]
         del st.pc[mark:]
         if cside:
-            raise Unsupported('case split inside a quantifier body', node)
+            raise Unsupported('case split inside a quantifier body: %s' % [(t[:120], k) for t, k in st.pc[mark:] if k not in ('wf', 'def', 'lib')][:3] if False else 'case split inside a quantifier body [%s]' % '; '.join(c[:100] for c in cside[:2]), node)
         rng = []
         if len(bounds) == 2:
             for b in bvs:
@@ -235,7 +244,7 @@ class Engine(ValueOps, ExprOps, CallOps, StmtOps):
                 return self.mk_bool(mk_implies(self.truthy(args[0]), self.truthy(args[1])))
             if name == 'seq' and len(args) == 1:
                 v = args[0]
-                return SV('tuple', seq=self.seq_of(v), elems=v.elems, ty=frozenset([('tuple', None)]))
+                return SV('tuple', seq=self.seq_of(v), elems=v.elems, ty=frozenset([('tuple', (self.elem_ty(v),))]))
             if name == 'is_fresh' and len(args) == 1 and self.old_state is not None:
                 v = args[0]
                 if v.kind == 'val':
@@ -366,25 +375,30 @@ class Engine(ValueOps, ExprOps, CallOps, StmtOps):
 
     def ev_IfExp(self, node):
         if self.spec_mode:
-            c, _, _ = self.cond(node.test)
+            c, rt, rf = self.cond(node.test)
             if c == TRUE:
                 return self.ev(node.body)
             if c == FALSE:
                 return self.ev(node.orelse)
+            saved_env = dict(self.st.env)
             self.guards.append(c)
             try:
+                self.apply_refine(rt)          # isinstance / None tests narrow the names they mention in that branch
                 a = self.ev(node.body)
                 if a.kind == 'val':
                     a = self.narrow_if_determined(a)
             finally:
                 self.guards.pop()
+                self.st.env = dict(saved_env)
             self.guards.append(mk_not(c))
             try:
+                self.apply_refine(rf)
                 b = self.ev(node.orelse)
                 if b.kind == 'val':
                     b = self.narrow_if_determined(b)
             finally:
                 self.guards.pop()
+                self.st.env = saved_env
             return self.merge_ite(c, a, b)
         return ExprOps.ev_IfExp(self, node)
 
